@@ -54,6 +54,25 @@ def _pure_take(a: ast.AST) -> bool:
 def check(P: Project, R: Report) -> None:
     _check_main(P, R)
     _r4_order(P, R)
+    _r5_no_invented_message(P, R)
+
+
+def _r5_no_invented_message(P: Project, R: Report) -> None:
+    """The legacy SSE carrier answers a request on two channels (POST body or event stream).  It delivers what the server
+    sent and nothing else only if the waiter for the event-stream answer exists before the POST goes out: an answer
+    that arrives first is otherwise routed by the reader, and the sender later adds a synthesised timeout error that
+    no other carrier would deliver.  The obligation is C12-R2's, read here for the sequence clause."""
+    R.rule("R5", "no carrier adds a message of its own to a conversation the server answered: on the legacy SSE carrier the waiter for an event-stream answer is registered before the POST is sent (and removed on every exit), so an answer that overtakes the POST's 202 completes the request instead of being followed by a synthesised timeout error")
+    from . import c12
+
+    sub = Report(prop="C12", tier=R.tier)
+    c12.check(P, sub)
+    n = 0
+    for o in sub.obligations:
+        if o.rule == "R2":
+            n += 1
+            R.ob("R5", "legacy SSE: " + o.key, o.ok, o.where, o.detail + ("" if o.ok else " — the answer is then delivered by the reader and a timeout error with the same id follows it on the read stream"), sample=None)
+    R.need(n >= 2, "anchor: the registration/removal obligations of the legacy SSE request path were not produced")
 
 
 def _check_main(P: Project, R: Report) -> None:
@@ -125,7 +144,9 @@ def _check_main(P: Project, R: Report) -> None:
             for c in walk_local(f.node):
                 if isinstance(c, ast.Call) and isinstance(c.func, ast.Attribute) and c.func.attr in ("_route_response", "_route_incoming_message", "_process_message_data", "_handle_message_event") and c.args:
                     a = c.args[0]
-                    R.ob("R1", f"{cname}:{f.qual}: hands `{c.func.attr}` a bare name", isinstance(a, ast.Name) or _pure_take(a), f"{m.rel}:{c.lineno}", f"argument `{ast.unparse(a)[:60]}`")
+                    # … or the decoder call itself (`route(response.json())`, `route(json.loads(text))`): nothing in between
+                    direct_parse = isinstance(a, ast.Call) and not a.keywords and ((isinstance(a.func, ast.Attribute) and a.func.attr == "json" and not a.args) or (call_name(a).split(".")[-1] == "loads" and len(a.args) == 1 and isinstance(a.args[0], (ast.Name, ast.Attribute))))
+                    R.ob("R1", f"{cname}:{f.qual}: hands `{c.func.attr}` a bare name", isinstance(a, ast.Name) or _pure_take(a) or direct_parse, f"{m.rel}:{c.lineno}", f"argument `{ast.unparse(a)[:60]}`")
                     if isinstance(a, ast.Name):
                         bad = _rewritten_origin(f, a.id)
                         R.ob("R1", f"{cname}:{f.qual}: what `{c.func.attr}` receives is a parsed or synthesised object, not a rewritten copy", bad is None, f"{m.rel}:{c.lineno}",
